@@ -126,6 +126,15 @@ fn corpus_for<B: Backend>(seed: u64) -> Vec<Value> {
     let pw = lk.clone().password_wrap_with_params(PASSWORD, &pw_params::<B>(&cheapest_params(ver))).unwrap().to_string();
     texts.push(("pw", "library".into(), pw.clone()));
     texts.push(("pw", "library, one character changed".into(), flip(&pw)));
+    if ver.nist() {
+        // k1/k3 password wraps: the 16-byte nonce IS the AES-CTR counter block; the 32-byte key spans two
+        // blocks, so the counter is incremented once - across a 32-bit, 64-bit or 128-bit carry for these
+        for (n, nonce) in [("counter block ending ffffffff", { let mut x = vec![0x11u8; 16]; x[12..].fill(0xff); x }), ("counter block ending ffffffffffffffff", { let mut x = vec![0x22u8; 16]; x[8..].fill(0xff); x }), ("counter block all ones", vec![0xffu8; 16])] {
+            if let Ok(t) = model::pbkw_wrap(ver, "local", PASSWORD, &cheapest_params(ver), &vec![0x33u8; model::pbkw_salt_len(ver)], &nonce, &lk_raw) {
+                texts.push(("pw", format!("reference model, {n}"), t));
+            }
+        }
+    }
     let (_, ppk, _, _) = pke_pair::<B>(&ks);
     let sealed = lk.clone().seal(&ppk).unwrap().to_string();
     texts.push(("seal", "library".into(), sealed.clone()));
